@@ -1429,8 +1429,12 @@ class Simulation:
 
         """
 
+        # Ensure misfit is computed (and with it residual and weights).
+        _ = self.misfit
+
         # Replace residual by provided vector
         # (division by weight is undone in gradient).
+        residual = self.data.residual.data.copy()
         with np.errstate(invalid='ignore'):  # (For division by cplx-NaN.)
             self.data.residual[...] = vector/self.data.weights.data
 
@@ -1440,8 +1444,18 @@ class Simulation:
             if hasattr(self, name):
                 delattr(self, name)
 
-        # Return gradient from weighted residual `vector`.
-        return self.gradient
+        # Compute gradient from weighted residual `vector`.
+        jtvec = self.gradient
+
+        # Gradient and back-propagated fields are now those of `vector`, not
+        # of the data misfit; restore the residual and reset them.
+        self.data.residual[...] = residual
+        self._gradient = None
+        for name in ['_dict_bfield', '_dict_bfield_info']:
+            if hasattr(self, name):
+                delattr(self, name)
+
+        return jtvec
 
     # UTILS
     @property
